@@ -89,7 +89,7 @@ class TraceGen:
         if r < 0.7: return '(E(%d, %d) || E(%d, %d))' % (a, self.rng.randint(0, 1), b, self.rng.randint(0, 1))
         if r < 0.8: return '(E(%d, %d) ? E(%d, 1) : E(%d, 0))' % (a, self.rng.randint(0, 1), b, b)
         if r < 0.9: return '(E(%d, 0), E(%d, %d))' % (a, b, self.rng.randint(0, 1))
-        return '({ M(%d); E(%d, %d); })' % (a, b, self.rng.randint(0, 1))
+        return '(({ M(%d); E(%d, %d); }))' % (a, b, self.rng.randint(0, 1))
     def stmt(self, depth, in_loop, in_switch):
         rng = self.rng; r = rng.random()
         if depth <= 0 or r < 0.25: return self.mark()
